@@ -137,6 +137,9 @@ def coq_enu(case, obs):
     if 'exc' in obs:
         return None
     bl, bp, bh = case['base']; lon, lat, h = case['g']; E, N, U = obs['p']; lo, la, hh = obs['back']
+    # the rounding of the rotated coordinates (~1e-9 m) moves the longitude by that much divided by the distance to the polar axis: the agreement
+    # asked of the longitude is 1e-11 degree at the equator and scales with 1 / cos(latitude) (1e-8 degree at 89.9 degrees)
+    lon_den = '1' + '0' * max(6, int(math.floor(11 + math.log10(max(math.cos(math.radians(lat)), 1e-6)))))
     stage_base = '''  destruct (geo_to_ecef_deg (%s, %s, %s)) as [[bX bY] bZ] eqn:EB. stage_fwd EB.
   destruct (ecef_to_geo_deg (bX, bY, bZ)) as [[blon blat] bhgt] eqn:EG. stage_inv EG.''' % (r(bl), r(bp), r(bh))
     return '''Lemma local : let '(e, n, u) := geo_to_enu (%s, %s, %s) (%s, %s, %s) in Rabs (e - %s) <= 1/1000000 /\\ Rabs (n - %s) <= 1/1000000 /\\ Rabs (u - %s) <= 1/1000000.
@@ -146,14 +149,14 @@ Proof.
   destruct (geo_to_ecef_deg (%s, %s, %s)) as [[X Y] Z] eqn:EP. stage_fwd EP.
   unfold ecef_to_enu. consts. close3.
 Qed.
-Lemma local_inverse : let '(lo, la, h) := enu_to_geo (%s, %s, %s) (%s, %s, %s) in Rabs (lo - %s) <= 1/100000000000 /\\ Rabs (la - %s) <= 1/100000000000 /\\ Rabs (h - %s) <= 1/100000.
+Lemma local_inverse : let '(lo, la, h) := enu_to_geo (%s, %s, %s) (%s, %s, %s) in Rabs (lo - %s) <= 1/%s /\\ Rabs (la - %s) <= 1/100000000000 /\\ Rabs (h - %s) <= 1/100000.
 Proof.
   unfold enu_to_geo, enu_to_ecef_base.
 %s
   match goal with |- context [enu_to_ecef ?a1 ?a2 ?a3 ?a4 ?a5 ?a6 ?a7 ?a8] => destruct (enu_to_ecef a1 a2 a3 a4 a5 a6 a7 a8) as [[X Y] Z] eqn:ER end. stage_rot ER.
   destruct (ecef_to_geo_deg (X, Y, Z)) as [[lo la] h] eqn:EI. stage_inv EI. close3.
 Qed.''' % (r(bl), r(bp), r(bh), r(lon), r(lat), r(h), r(E), r(N), r(U), stage_base, r(lon), r(lat), r(h),
-           r(bl), r(bp), r(bh), r(E), r(N), r(U), r(lo), r(la), r(hh), stage_base)
+           r(bl), r(bp), r(bh), r(E), r(N), r(U), r(lo), lon_den, r(la), r(hh), stage_base)
 
 
 def oracle_enu(case, obs):
@@ -255,9 +258,13 @@ def gen_edge(rng, n, tier):
         k = rng.random()
         if k < 0.5:
             out.append({'kind': 'geo', 'g': rand_geo(rng, model=False), 'base': rand_geo(rng, model=False)})
-        elif k < 0.75:
+        elif k < 0.65:
             lon = rng.uniform(-5, 9.5); lat = rng.uniform(41.5, 51); h = rng.choice([0.0, rng.uniform(-100, 4800)])
             out.append({'kind': 'lambert', 'g': [lon, lat, h]})
+        elif k < 0.75:                              # whole tracks through Lambert-93, fresh or after a local round trip (the track then already carries a base), or built with base=
+            m = rng.randint(1, 4)
+            pts = [[rng.uniform(-5, 9.5), rng.uniform(41.5, 51), rng.choice([0.0, rng.uniform(-100, 4800)])] for _ in range(m)]
+            out.append({'kind': 'ptrack', 'pts': pts, 'first': rng.choice([None, 'enu', 'ctor']), 'base': [rng.uniform(-5, 9.5), rng.uniform(41.5, 51), 100.0]})
         else:
             m = rng.randint(1, 5)
             base = rand_geo(rng, model=False)
@@ -281,6 +288,18 @@ def run_edge(case):
         b = p.toGeoCoords(2154)
         return {'p': [p.getX(), p.getY(), p.getZ()], 'back': [b.lon, b.lat, b.hgt]}
     pts = case['pts']
+    if case['kind'] == 'ptrack':
+        obsl = [Obs(GeoCoords(*p), ObsTime.readUnixTime(1000 + 10 * i)) for i, p in enumerate(pts)]
+        tr = Track(obsl, base=GeoCoords(*case['base'])) if case['first'] == 'ctor' else Track(obsl)
+        if case['first'] == 'enu':
+            tr.toENUCoords(GeoCoords(*case['base'])); tr.toGeoCoords()
+        tr.toProjCoords(2154)
+        proj = [[o.position.getX(), o.position.getY(), o.position.getZ()] for o in tr]
+        expect = [GeoCoords(*[o2 for o2 in p]).toProjCoords(2154) for p in pts]
+        rec = tr.base
+        tr.toGeoCoords()
+        return {'proj': proj, 'expect': [[e.getX(), e.getY(), e.getZ()] for e in expect], 'base': rec if isinstance(rec, (int, str)) else repr(rec),
+                'geo': [[o.position.getX(), o.position.getY(), o.position.getZ()] for o in tr], 'n': tr.size()}
     tr = Track([Obs(GeoCoords(*p), ObsTime.readUnixTime(1000 + 10 * i)) for i, p in enumerate(pts)])
     base = GeoCoords(*case['base']) if case['base'] else None
     tr.toENUCoords(base) if base else tr.toENUCoords()
@@ -324,6 +343,18 @@ def oracle_edge(case, obs):
         lon, lat, h = case['g']; lo, la, hh = obs['back']
         if not (abs(lo - lon) <= 1e-9 and abs(la - lat) <= 1e-9 and hh == h):
             return 'geographic %r -> Lambert-93 %r -> geographic returns %r' % (case['g'], obs['p'], obs['back'])
+        return None
+    if case['kind'] == 'ptrack':
+        if obs['n'] != len(case['pts']):
+            return 'track projection changed the number of observations'
+        for a, b in zip(obs['proj'], obs['expect']):
+            if not all(abs(u - v) <= 1e-3 for u, v in zip(a, b)):
+                return 'Track.toProjCoords(2154) gives %r, projecting each position gives %r' % (obs['proj'], obs['expect'])
+        if obs['base'] != 2154:
+            return 'the projected track (first step: %r) records the base %r, not the projection 2154 it used' % (case['first'], obs['base'])
+        for p, g in zip(case['pts'], obs['geo']):
+            if not (abs(g[0] - p[0]) <= 1e-9 and abs(g[1] - p[1]) <= 1e-9 and abs(g[2] - p[2]) <= 1e-3):
+                return 'track position %r -> Lambert-93 -> geographic (recorded base) returns %r' % (p, g)
         return None
     if obs['n'] != len(case['pts']) or obs['times'] != [1000 + 10 * i for i in range(len(case['pts']))]:
         return 'track conversion changed the observations: %d observations at %r' % (obs['n'], obs['times'])
